@@ -102,7 +102,13 @@ EXPLANATION = (
     "non-hopping split of rfch_get_params() is folded: with the hopping flag stored next to the descriptor set, a dedicated channel "
     "of each established type and the ARFCN asked for, the conditions on the way to the stored value are evaluated for every value "
     "of the descriptor fields they read (N in 1..64, HSN, MAIO in 0..63) and the arm reached must contain the generator's call; a "
-    "descriptor of the domain sent to another arm (N = 1 to the non-hopping branch) is reported with that valuation.")
+    "descriptor of the domain sent to another arm (N = 1 to the non-hopping branch) is reported with that valuation. "
+    "R11 (the starting time): every firmware layer1 function that takes the pending channel description over (reads a pending `st_` "
+    "member, writes a live one -- who-reads / who-writes over the member declarations) is evaluated on a byte memory (h0 / h1 share the "
+    "bytes of their union; memcpy, struct assignment and member stores move bytes) for the four mode transitions (previous / pending "
+    "channel hopping or not), every pending allocation length 1..64 and previous lengths on both sides of it; afterwards the hopping "
+    "flag must equal the pending one and the parameters rfch_get_params() reads (hsn, maio, n, ma[0..n-1], or h0.arfcn) the pending "
+    "description's -- a copy selected by the previous flag is reported with the transition that leaves a stale allocation.")
 ASSUMPTIONS = [
     "spec/hopping.json is a faithful transcription of TS 45.002 table 6.2.3 and of the algorithm of clause 6.2.3",
     "NBIN is the number of bits needed to represent N (TS 45.002 6.2.3), so 2^NBIN - 1 == (1 << N.bit_length()) - 1; the mask is "
@@ -127,7 +133,10 @@ ASSUMPTIONS = [
     "first call; the call sequences only refute (the terms are folded with mathematical integers, every stored member converted to its type)",
     "C07.R8: functions called between the stores of one descriptor-writing sequence do not modify the descriptor copied from; struct l1s_h1 "
     "has the natural-alignment layout of its integer members; a hopping descriptor is reached only through expressions whose clang type is "
-    "struct l1s_h1 (no type-punned access); the right-hand side of the ma[] element copy is not analysed",
+    "struct l1s_h1 (no type-punned access); the right-hand side of the ma[] element copy is not analysed",    "C07.R11: the records of the channel description have the natural-alignment layout of their integer members (enumerations 4 bytes, "
+    "little-endian scalars -- only the relative positions inside `l1s.dedicated` matter); the pending description is complete when the "
+    "starting time is reached (C07.R8 for its writers); external functions called on the way (printf) do not touch the description; "
+    "the members `st_<x>` of the channel description are the pending counterparts of the members `<x>` (layer1/sync.h)",
 ]
 
 F_GSM = rel("gsm_shared")
@@ -3478,76 +3487,886 @@ def r8_descriptor_writers(L, tier):
     for every valuation of the 8-bit fields they read (complete); a valuation of the property's domain (n in 1..64)
     with fewer entries copied than n is the violation, reported with it.  Anything the scan cannot classify (pointer
     escapes, a sequence split over functions, several stores) is ANALYSIS-ERROR, never a violation."""
-    tmp = tempfile.mkdtemp(prefix="c07r8-", dir=os.environ.get("TMPDIR") or "/var/tmp")
+    d = os.path.join(L.repo, FW_LAYER1)
     try:
-        # the stub include path of cfront has no <inttypes.h> (prim_freq.c prints with PRIu32): declarations-only stand-in,
-        # found through clang's own #include_next
-        with open(os.path.join(tmp, "inttypes.h"), "w") as fh:
-            fh.write("#include <stdint.h>\n#define PRIu32 \"u\"\n#define PRId32 \"d\"\n#define PRIx32 \"x\"\n"
-                     "#define PRIu16 \"u\"\n#define PRIu8 \"u\"\n#define PRIu64 \"llu\"\n")
-        d = os.path.join(L.repo, FW_LAYER1)
+        names = sorted(x for x in os.listdir(d) if x.endswith(".c"))
+    except OSError as e:
+        raise AnalysisError("firmware layer1 directory unreadable: %s" % e)
+    head = _layer1_tu(L, "rfch.c")
+    members = {DESC}
+    for rec in head.records.values():
+        for c in walk(rec):
+            if kind(c) == "FieldDecl" and _is_desc(_qt(c)):
+                members.add(c.get("name"))
+    L.unit(F_SYNC_H)
+    pat = re.compile(r"\b(%s)\b" % "|".join(re.escape(m) for m in sorted(members)))
+    nsites, nfiles, seen = 0, 0, set()
+    for name in names:
         try:
-            names = sorted(x for x in os.listdir(d) if x.endswith(".c"))
+            with open(os.path.join(d, name), errors="replace") as fh:
+                src = fh.read()
         except OSError as e:
-            raise AnalysisError("firmware layer1 directory unreadable: %s" % e)
-        head = TU(L.repo, "fw", "layer1/rfch.c", L=L)
-        members = {DESC}
-        for rec in head.records.values():
-            for c in walk(rec):
-                if kind(c) == "FieldDecl" and _is_desc(_qt(c)):
-                    members.add(c.get("name"))
-        L.unit(F_SYNC_H)
-        pat = re.compile(r"\b(%s)\b" % "|".join(re.escape(m) for m in sorted(members)))
-        nsites, nfiles, seen = 0, 0, set()
-        for name in names:
-            try:
-                with open(os.path.join(d, name), errors="replace") as fh:
-                    src = fh.read()
-            except OSError as e:
-                raise AnalysisError("%s unreadable: %s" % (name, e))
-            # which translation units to parse (tier quick): only a file that names a member of the descriptor type (or
-            # the type) can touch one without a pointer handed to it -- and pointers are followed from where they are taken
-            named = bool(pat.search(strip_comments(src)))
-            if tier != "thorough" and not named:
+            raise AnalysisError("%s unreadable: %s" % (name, e))
+        # which translation units to parse (tier quick): only a file that names a member of the descriptor type (or
+        # the type) can touch one without a pointer handed to it -- and pointers are followed from where they are taken
+        named = bool(pat.search(strip_comments(src)))
+        if tier != "thorough" and not named:
+            continue
+        try:
+            tu = _layer1_tu(L, name)
+        except AnalysisError as e:
+            if named:
+                raise
+            L.extra.setdefault("descriptor_writer_scan_unparsed", []).append("%s: %s" % (name, str(e)[:120]))
+            continue
+        if DESC not in tu.records:
+            if named:
+                raise AnalysisError("%s names a hopping descriptor but struct %s is not declared there" % (name, DESC))
+            continue                                # the type is not visible: no object of it can be touched
+        nfiles += 1
+        file = "%s/%s" % (FW_LAYER1, name)
+        scans = {}
+        for fn, fd in sorted(tu.functions.items()):
+            if not any(kind(c) == "CompoundStmt" for c in kids(fd)):
                 continue
+            where = (fd.get("_file") or "", fn)
+            sc = _DescScan(tu, fd)
+            if sc.sites or sc.escapes:
+                scans[fn] = (fd, sc, where)
+        writers = {fn for fn, (fd, sc, _) in scans.items() if any(s.writes() for s in sc.sites.values())}
+        for fn, (fd, sc, where) in sorted(scans.items()):
+            if where in seen:
+                continue                            # an inline function of a header, met in an earlier file
+            seen.add(where)
+            if sc.escapes:
+                raise AnalysisError("%s(): hopping descriptor: %s; unclassifiable" % (fn, "; ".join(sc.escapes[:2])))
+            if not any(s.writes() or s.delegated for s in sc.sites.values()):
+                continue
+            L.fn(file, fn)
+            g = CCFG(tu, fd)
+            for obj in sorted(sc.sites):
+                nsites += _desc_site(L, tu, file, fd, g, sc.sites[obj], sc, writers)
+    L.extra["descriptor_writer_scan"] = {"translation_units": nfiles, "sites": nsites, "members": sorted(members)}
+    L.floor("C07.R8", "sites that write a hopping descriptor (struct l1s_h1) in firmware layer1", nsites, 2)
+
+
+# ------------------------------------------------------------------------------
+# R11: the take-over of the pending channel description at the starting time, folded over a byte memory
+
+_BM_INT = {"char": (1, True), "signed char": (1, True), "unsigned char": (1, False), "_Bool": (1, False), "uint8_t": (1, False),
+           "int8_t": (1, True), "short": (2, True), "unsigned short": (2, False), "uint16_t": (2, False), "int16_t": (2, True),
+           "int": (4, True), "unsigned int": (4, False), "uint32_t": (4, False), "int32_t": (4, True), "long": (4, True),
+           "unsigned long": (4, False), "size_t": (4, False), "long long": (8, True), "unsigned long long": (8, False),
+           "uint64_t": (8, False), "int64_t": (8, True)}
+
+
+class _Flow(Exception):
+    def __init__(self, what, value=None):
+        self.what, self.value = what, value
+
+
+class _ByteMachine:
+    """Concrete evaluation of a small C function over a byte memory (constant folding of ONE point of a finite scenario
+    space): objects are regions of little-endian bytes laid out with natural alignment of their integer members (the
+    assumption C07.R8 makes), members of a union share their bytes, memcpy / struct assignment / member stores move bytes.
+    A byte nobody defined, a value that is not determined, a call whose effect on the memory is not known, goto, asm,
+    switch: AnalysisError -- the machine never guesses."""
+
+    def __init__(self, tu, background=None, max_steps=200000):
+        self.tu = tu
+        self.mem = {}                   # (region, offset) -> int 0..255 | pointer tuple | ('cont',)
+        self.background = background    # (region, offset) -> int | None for a byte never written
+        self.layouts = {}
+        self.frames = [0]
+        self.nframes = 0
+        self.steps, self.max_steps = 0, max_steps
+        self.depth = 0
+        self.locals = {}
+        self.member_bases = {}          # id(RecordDecl) -> {(region, offset)} of the objects of that record accessed
+
+    # -- types ---------------------------------------------------------------
+    def tdesc(self, t, owner=None):
+        """type descriptor of a clang `type` dict: ('int', size, signed) | ('ptr', pointee text) | ('arr', elem, n) |
+        ('rec', RecordDecl) | None; `owner` = (parent record, index of the FieldDecl) resolves an unnamed record type to the
+        RecordDecl declared right before the field"""
+        qt = (t or {}).get("desugaredQualType") or (t or {}).get("qualType") or ""
+        return self._tdesc(" ".join(w for w in qt.split() if w not in ("const", "volatile")), (t or {}).get("qualType") or "", owner)
+
+    def _tdesc(self, qt, sugar, owner):
+        m = re.fullmatch(r"(.*?)\s*\[(\d+)\]((?:\[\d+\])*)", qt)
+        if m:
+            el = self._tdesc((m.group(1) + m.group(3)).strip(), "", owner)
+            return ("arr", el, int(m.group(2))) if el is not None else None
+        if qt.endswith("*") or "(*)" in qt:
+            return ("ptr", qt[:-1].strip())
+        if qt in _BM_INT:
+            return ("int",) + _BM_INT[qt]
+        s = " ".join(w for w in sugar.split() if w not in ("const", "volatile"))
+        if s in _BM_INT:
+            return ("int",) + _BM_INT[s]
+        if qt.startswith("enum "):
+            return ("int", 4, False)
+        m = re.fullmatch(r"(struct|union) (\w+)", qt)
+        if m:
+            r = self.tu.records.get(m.group(2))
+            return ("rec", r) if r is not None and kids(r) else None
+        if re.match(r"(struct|union)\b", qt) and owner is not None:
+            sibs = kids(owner[0])
+            for j in range(owner[1] - 1, -1, -1):
+                if kind(sibs[j]) == "RecordDecl":
+                    return ("rec", sibs[j])
+                if kind(sibs[j]) == "FieldDecl":
+                    break
+        return None
+
+    def sizeof(self, d):
+        if d is None:
+            return None, 1
+        if d[0] == "int":
+            return d[1], d[1]
+        if d[0] == "ptr":
+            return 4, 4
+        if d[0] == "arr":
+            s, a = self.sizeof(d[1])
+            return (None if s is None else s * d[2]), a
+        size, align, _ = self.layout(d[1])
+        return size, align
+
+    def layout(self, rec):
+        """(size | None, alignment, {FieldDecl id: (offset | None, descriptor, name)}); an offset is None behind a member
+        whose size is not known (such a member is a memory region of its own)"""
+        if id(rec) in self.layouts:
+            return self.layouts[id(rec)]
+        self.layouts[id(rec)] = (None, 1, {})        # a record containing itself by value does not exist; pointers are scalars
+        union = rec.get("tagUsed") == "union"
+        off, align, size, fields = 0, 1, 0, {}
+        for i, c in enumerate(kids(rec)):
+            if kind(c) != "FieldDecl":
+                continue
+            d = None if c.get("isBitfield") else self.tdesc(c.get("type"), (rec, i))
+            s, a = self.sizeof(d)
+            if s is None or off is None:
+                fields[c.get("id")] = (None, d, c.get("name"))
+                off = off if union else None
+                size = None
+                continue
+            if union:
+                fields[c.get("id")] = (0, d, c.get("name"))
+                size = None if size is None else max(size, s)
+            else:
+                off = (off + a - 1) // a * a
+                fields[c.get("id")] = (off, d, c.get("name"))
+                off += s
+                size = off
+            align = max(align, a)
+        if size is not None:
+            size = (size + align - 1) // align * align
+        self.layouts[id(rec)] = (size, align, fields)
+        return self.layouts[id(rec)]
+
+    def flat_fields(self, rec, base=0):
+        """{member name: (offset, descriptor)} of a record, the members of anonymous struct / union members included"""
+        out = {}
+        for fid, (off, d, name) in self.layout(rec)[2].items():
+            if off is None:
+                continue
+            if name:
+                out[name] = (base + off, d)
+            elif d is not None and d[0] == "rec":
+                out.update(self.flat_fields(d[1], base + off))
+        return out
+
+    # -- memory --------------------------------------------------------------
+    def _byte(self, region, off):
+        v = self.mem.get((region, off))
+        if v is None and self.background is not None:
+            v = self.background(region, off)
+        if v is None:
+            raise AnalysisError("byte machine: `%s` + %d is read but was never defined; unclassifiable" % (region, off))
+        return v
+
+    def load(self, a):
+        region, off, d = a
+        if d is None:
+            raise AnalysisError("byte machine: an object of a type without known size is read; unclassifiable")
+        if d[0] == "ptr":
+            v = self._byte(region, off)
+            if isinstance(v, tuple) and v[0] != "cont":
+                return v
+            bs = [self._byte(region, off + i) for i in range(4)]
+            if all(isinstance(b, int) and b == 0 for b in bs):
+                return 0
+            raise AnalysisError("byte machine: a pointer is read from bytes that do not hold one; unclassifiable")
+        if d[0] == "int":
+            bs = [self._byte(region, off + i) for i in range(d[1])]
+            if not all(isinstance(b, int) for b in bs):
+                raise AnalysisError("byte machine: an integer is read from the bytes of a pointer; unclassifiable")
+            v = sum(b << (8 * i) for i, b in enumerate(bs))
+            return v - (1 << (8 * d[1])) if d[2] and v >= 1 << (8 * d[1] - 1) else v
+        size = self.sizeof(d)[0]
+        if size is None:
+            raise AnalysisError("byte machine: an object of unknown size is read; unclassifiable")
+        return ("agg", [self._byte(region, off + i) for i in range(size)])
+
+    def store(self, a, v):
+        region, off, d = a
+        if isinstance(v, tuple) and v[0] == "agg":
+            for i, b in enumerate(v[1]):
+                self.mem[(region, off + i)] = b
+            return
+        if v is None:
+            raise AnalysisError("byte machine: a value that is not determined is stored; unclassifiable")
+        if d is None or d[0] not in ("int", "ptr"):
+            raise AnalysisError("byte machine: scalar store into an object that is not a scalar; unclassifiable")
+        if isinstance(v, tuple):
+            if d[0] != "ptr":
+                raise AnalysisError("byte machine: a pointer is stored into an integer; unclassifiable")
+            self.mem[(region, off)] = v
+            for i in range(1, 4):
+                self.mem[(region, off + i)] = ("cont",)
+            return
+        size = 4 if d[0] == "ptr" else d[1]
+        for i in range(size):
+            self.mem[(region, off + i)] = (v >> (8 * i)) & 0xFF
+
+    def copy(self, dst, src, n):
+        if not (isinstance(dst, tuple) and dst[0] == "p" and isinstance(src, tuple) and src[0] == "p" and isinstance(n, int)):
+            raise AnalysisError("byte machine: copy with operands that are not determined; unclassifiable")
+        if n < 0 or n > 1 << 16:
+            raise AnalysisError("byte machine: copy of %d bytes; unclassifiable" % n)
+        data = [self._byte(src[1], src[2] + i) for i in range(n)]
+        for i, b in enumerate(data):
+            self.mem[(dst[1], dst[2] + i)] = b
+
+    # -- expressions ---------------------------------------------------------
+    def _wrap(self, v, n):
+        d = self.tdesc(n.get("type"))
+        if isinstance(v, int) and d is not None and d[0] == "int":
+            v &= (1 << (8 * d[1])) - 1
+            if d[2] and v >= 1 << (8 * d[1] - 1):
+                v -= 1 << (8 * d[1])
+        return v
+
+    def _var_region(self, ref):
+        rd = ref.get("referencedDecl", {})
+        name = rd.get("name")
+        key = ("local", rd.get("id"))
+        fr = self.frames[-1]
+        if (key, fr) in self.locals:
+            return "%s#%d" % (name, fr), self.locals[(key, fr)]
+        if name in self.tu.vars:
+            return name, self.tdesc(self.tu.vars[name].get("type"))
+        raise AnalysisError("byte machine: `%s` is not a variable of the function or of the file; unclassifiable" % name)
+
+    def addr(self, n):
+        n = strip(n)
+        k = kind(n)
+        if k == "DeclRefExpr":
+            region, d = self._var_region(n)
+            return (region, 0, d)
+        if k == "MemberExpr":
+            b = kids(n)[0]
+            if n.get("isArrow"):
+                p = self.eval(b)
+                if not (isinstance(p, tuple) and p[0] == "p"):
+                    raise AnalysisError("byte machine: `%s` through a pointer that is not determined; unclassifiable" % ctext(n)[:60])
+                region, off, d = p[1], p[2], p[3]
+            else:
+                region, off, d = self.addr(b)
+            if d is None or d[0] != "rec":
+                raise AnalysisError("byte machine: member `%s` of an object whose record type is not known; unclassifiable" % ctext(n)[:60])
+            self.member_bases.setdefault(id(d[1]), set()).add((region, off))
+            f = self.layout(d[1])[2].get(n.get("referencedMemberDecl"))
+            if f is None:
+                raise AnalysisError("byte machine: member `%s` is not declared in its record; unclassifiable" % ctext(n)[:60])
+            if f[0] is None:
+                return ("%s+%d.%s" % (region, off, f[2] or n.get("referencedMemberDecl")), 0, f[1])
+            return (region, off + f[0], f[1])
+        if k == "ArraySubscriptExpr":
+            p, i = self.eval(kids(n)[0]), self.eval(kids(n)[1])
+            if isinstance(p, int) and isinstance(i, tuple):
+                p, i = i, p
+            return self._deref(self._padd(p, i), n)
+        if k == "UnaryOperator" and n.get("opcode") == "*":
+            return self._deref(self.eval(kids(n)[0]), n)
+        raise AnalysisError("byte machine: `%s` (%s) as an object is outside the vocabulary" % (ctext(n)[:60], k))
+
+    def _deref(self, p, n):
+        if not (isinstance(p, tuple) and p[0] == "p"):
+            raise AnalysisError("byte machine: `%s` through a pointer that is not determined; unclassifiable" % ctext(n)[:60])
+        return (p[1], p[2], p[3])
+
+    def _padd(self, p, i):
+        if not (isinstance(p, tuple) and p[0] == "p" and isinstance(i, int)):
+            raise AnalysisError("byte machine: pointer arithmetic on operands that are not determined; unclassifiable")
+        s = self.sizeof(p[3])[0]
+        if s is None:
+            raise AnalysisError("byte machine: pointer arithmetic over an object of unknown size; unclassifiable")
+        return ("p", p[1], p[2] + i * s, p[3])
+
+    def static_desc(self, n):
+        """descriptor of an lvalue expression without evaluating it (operand of sizeof)"""
+        n = strip(n)
+        k = kind(n)
+        if k == "DeclRefExpr":
+            return self._var_region(n)[1]
+        if k == "MemberExpr":
+            b = strip(kids(n)[0])
+            d = self.static_desc(b)
+            if n.get("isArrow"):
+                d = self._pointee(b)
+            if d is None or d[0] != "rec":
+                return None
+            f = self.layout(d[1])[2].get(n.get("referencedMemberDecl"))
+            return f[1] if f else None
+        if k == "ArraySubscriptExpr":
+            d = self.static_desc(kids(n)[0])
+            return d[1] if d is not None and d[0] == "arr" else None
+        return None
+
+    def _pointee(self, n):
+        t = (n.get("type") or {})
+        qt = t.get("desugaredQualType") or t.get("qualType") or ""
+        return self._tdesc(" ".join(w for w in qt.rstrip().rstrip("*").split() if w not in ("const", "volatile")), "", None) \
+            if qt.rstrip().endswith("*") else None
+
+    def _int(self, v, n):
+        if not isinstance(v, int):
+            raise AnalysisError("byte machine: `%s` is not determined; unclassifiable" % ctext(n)[:60])
+        return v
+
+    def eval(self, n):
+        self.steps += 1
+        if self.steps > self.max_steps:
+            raise AnalysisError("byte machine: step limit; unclassifiable")
+        k = kind(n)
+        ks = kids(n)
+        if k in ("ParenExpr", "ConstantExpr"):
+            return self.eval(ks[0])
+        if k in ("IntegerLiteral", "CharacterLiteral"):
+            return int(n["value"])
+        if k == "StringLiteral":
+            return ("s", n.get("value"))
+        if k == "ImplicitCastExpr" or k == "CStyleCastExpr":
+            ck = n.get("castKind")
+            if ck == "LValueToRValue":
+                return self.load(self.addr(ks[0]))
+            if ck == "ArrayToPointerDecay":
+                if kind(strip(ks[0])) == "StringLiteral":
+                    return ("s", strip(ks[0]).get("value"))
+                region, off, d = self.addr(ks[0])
+                return ("p", region, off, d[1] if d is not None and d[0] == "arr" else None)
+            if ck == "FunctionToPointerDecay":
+                return ("f", ctext(ks[0]))
+            if ck == "NullToPointer":
+                return 0
+            if ck in ("PointerToBoolean", "IntegralToBoolean"):
+                v = self.eval(ks[0])
+                return int(v != 0) if v is not None else None
+            if ck == "ToVoid":
+                self.eval(ks[0])
+                return None
+            v = self.eval(ks[0])
+            if ck == "BitCast" and isinstance(v, tuple) and v[0] == "p":
+                pd = self._pointee(n)
+                return ("p", v[1], v[2], pd if pd is not None else v[3])
+            if ck in ("IntegralCast", "NoOp", "BitCast"):
+                return self._wrap(v, n)
+            raise AnalysisError("byte machine: conversion %s is outside the vocabulary" % ck)
+        if k == "DeclRefExpr":
+            if n.get("referencedDecl", {}).get("kind") == "EnumConstantDecl":
+                return self.tu.fold(n)
+            raise AnalysisError("byte machine: `%s` used as a value without conversion; unclassifiable" % ctext(n)[:40])
+        if k == "UnaryExprOrTypeTraitExpr":
+            if n.get("name") != "sizeof":
+                raise AnalysisError("byte machine: %s is outside the vocabulary" % n.get("name"))
+            d = self.tdesc(n.get("argType")) if "argType" in n else self.static_desc(ks[0])
+            s = self.sizeof(d)[0]
+            if s is None:
+                s = self.tu.fold(n)
+            if s is None:
+                raise AnalysisError("byte machine: `%s` cannot be sized; unclassifiable" % ctext(n)[:60])
+            return s
+        if k == "UnaryOperator":
+            op = n.get("opcode")
+            if op == "&":
+                region, off, d = self.addr(ks[0])
+                return ("p", region, off, d)
+            if op in ("++", "--"):
+                a = self.addr(ks[0])
+                cur = self.load(a)
+                new = self._padd(cur, 1 if op == "++" else -1) if isinstance(cur, tuple) else \
+                    self._wrap(self._int(cur, n) + (1 if op == "++" else -1), n)
+                self.store(a, new)
+                return cur if n.get("isPostfix") else new
+            v = self.eval(ks[0])
+            if op == "!":
+                return int(v == 0) if v is not None else None
+            v = self._int(v, n)
+            return self._wrap({"-": -v, "+": v, "~": ~v}[op], n) if op in "-+~" else None
+        if k == "BinaryOperator":
+            op = n.get("opcode")
+            if op == "=":
+                a = self.addr(ks[0])
+                v = self.eval(ks[1])
+                self.store(a, v)
+                return v
+            if op == ",":
+                self.eval(ks[0])
+                return self.eval(ks[1])
+            if op in ("&&", "||"):
+                a = self.eval(ks[0])
+                if a is None:
+                    raise AnalysisError("byte machine: `%s` is not determined; unclassifiable" % ctext(ks[0])[:60])
+                if (op == "&&") != bool(a != 0):
+                    return int(a != 0)
+                b = self.eval(ks[1])
+                if b is None:
+                    raise AnalysisError("byte machine: `%s` is not determined; unclassifiable" % ctext(ks[1])[:60])
+                return int(b != 0)
+            a, b = self.eval(ks[0]), self.eval(ks[1])
+            return self._binop(op, a, b, n)
+        if k == "CompoundAssignOperator":
+            a = self.addr(ks[0])
+            v = self._binop(n.get("opcode")[:-1], self.load(a), self.eval(ks[1]), n)
+            d = a[2]
+            if isinstance(v, int) and d is not None and d[0] == "int":
+                v &= (1 << (8 * d[1])) - 1
+                v = v - (1 << (8 * d[1])) if d[2] and v >= 1 << (8 * d[1] - 1) else v
+            self.store(a, v)
+            return v
+        if k == "ConditionalOperator":
+            c = self.eval(ks[0])
+            if c is None:
+                raise AnalysisError("byte machine: `%s` is not determined; unclassifiable" % ctext(ks[0])[:60])
+            return self.eval(ks[1] if c != 0 else ks[2])
+        if k == "CallExpr":
+            return self.call(n)
+        raise AnalysisError("byte machine: expression %s `%s` is outside the vocabulary" % (k, ctext(n)[:60]))
+
+    def _binop(self, op, a, b, n):
+        if isinstance(a, tuple) or isinstance(b, tuple):
+            if op == "+":
+                return self._padd(a, b) if isinstance(a, tuple) else self._padd(b, a)
+            if op == "-" and isinstance(b, int):
+                return self._padd(a, -b)
+            if op in ("==", "!=") and (a == 0 or b == 0 or (a[0] == "p" and b[0] == "p")):
+                return int((a == b) == (op == "=="))
+            raise AnalysisError("byte machine: operator %s on a pointer; unclassifiable" % op)
+        a, b = self._int(a, n), self._int(b, n)
+        if op in ("/", "%"):
+            if b == 0:
+                raise AnalysisError("byte machine: division by zero; unclassifiable")
+            q = abs(a) // abs(b) * (1 if (a < 0) == (b < 0) else -1)
+            return self._wrap(q if op == "/" else a - b * q, n)
+        if op in ("<<", ">>") and not 0 <= b < 64:
+            raise AnalysisError("byte machine: shift by %d; unclassifiable" % b)
+        f = {"+": lambda: a + b, "-": lambda: a - b, "*": lambda: a * b, "<<": lambda: a << b, ">>": lambda: a >> b,
+             "&": lambda: a & b, "|": lambda: a | b, "^": lambda: a ^ b, "<": lambda: int(a < b), ">": lambda: int(a > b),
+             "<=": lambda: int(a <= b), ">=": lambda: int(a >= b), "==": lambda: int(a == b), "!=": lambda: int(a != b)}.get(op)
+        if f is None:
+            raise AnalysisError("byte machine: operator %s is outside the vocabulary" % op)
+        return self._wrap(f(), n)
+
+    # -- calls and statements ------------------------------------------------
+    def call(self, n):
+        ks = kids(n)
+        name = ctext(ks[0])
+        args = [self.eval(a) for a in ks[1:]]
+        if name in COPY_FUNCS and len(args) == 3:
+            self.copy(args[0], args[1], args[2])
+            return args[0]
+        if name in ("memset", "__builtin_memset") and len(args) == 3:
+            if not (isinstance(args[0], tuple) and args[0][0] == "p" and isinstance(args[1], int) and isinstance(args[2], int)
+                    and 0 <= args[2] <= 1 << 16):
+                raise AnalysisError("byte machine: memset with operands that are not determined; unclassifiable")
+            for i in range(args[2]):
+                self.mem[(args[0][1], args[0][2] + i)] = args[1] & 0xFF
+            return args[0]
+        f = self.tu.functions.get(name)
+        if f is not None and any(kind(c) == "CompoundStmt" for c in kids(f)):
+            return self.run(f, args)
+        ps = self.tu.fparams(f) if f is not None else []
+        for i, v in enumerate(args):
+            if isinstance(v, tuple) and v[0] == "p":
+                pt = ps[i].get("type", {}).get("qualType", "") if i < len(ps) else ""
+                if not ("*" in pt and _pointee_const(pt)):
+                    raise AnalysisError("byte machine: %s() is handed a pointer into `%s` and may write it; unclassifiable" % (name, v[1]))
+        return None                     # an external function: its value is not determined, the memory modelled is not its business
+
+    def run(self, f, args=()):
+        ps = self.tu.fparams(f)
+        if len(ps) != len(args) or f.get("variadic") or self.depth >= 4:
+            raise AnalysisError("byte machine: call of %s() cannot be bound; unclassifiable" % f.get("name"))
+        self.nframes += 1
+        fr = self.nframes
+        self.frames.append(fr)
+        self.depth += 1
+        try:
+            for p, v in zip(ps, args):
+                d = self.tdesc(p.get("type"))
+                self.locals[(("local", p.get("id")), fr)] = d
+                if v is not None:
+                    self.store(("%s#%d" % (p.get("name"), fr), 0, d), v)
             try:
-                tu = head if name == "rfch.c" else TU(L.repo, "fw", "layer1/%s" % name, L=L, extra_flags=("-idirafter", tmp))
+                self.exec(self.tu.body(f))
+            except _Flow as e:
+                if e.what == "return":
+                    return e.value
+                raise AnalysisError("byte machine: `%s` outside a loop; unclassifiable" % e.what)
+            return None
+        finally:
+            self.depth -= 1
+            self.frames.pop()
+
+    def _cond(self, c):
+        v = self.eval(c)
+        if v is None:
+            raise AnalysisError("byte machine: condition `%s` is not determined; unclassifiable" % ctext(c)[:60])
+        return v != 0
+
+    def exec(self, st):
+        self.steps += 1
+        if self.steps > self.max_steps:
+            raise AnalysisError("byte machine: step limit; unclassifiable")
+        k = kind(st)
+        if k is None or k == "NullStmt":
+            return
+        if k == "CompoundStmt":
+            for x in kids(st):
+                self.exec(x)
+        elif k == "DeclStmt":
+            for d in kids(st):
+                if kind(d) != "VarDecl":
+                    continue
+                if d.get("storageClass") in ("static", "extern"):
+                    raise AnalysisError("byte machine: block-scope object `%s` of static storage; unclassifiable" % d.get("name"))
+                fr = self.frames[-1]
+                desc = self.tdesc(d.get("type"))
+                self.locals[(("local", d.get("id")), fr)] = desc
+                init = [c for c in kids(d) if kind(c) is not None]
+                if init:
+                    if kind(strip(init[-1])) == "InitListExpr":
+                        raise AnalysisError("byte machine: initialiser list of `%s`; unclassifiable" % d.get("name"))
+                    self.store(("%s#%d" % (d.get("name"), fr), 0, desc), self.eval(init[-1]))
+        elif k == "IfStmt":
+            inner = st["inner"]
+            he = st.get("hasElse", False)
+            if self._cond(inner[-3] if he else inner[-2]):
+                self.exec(inner[-2] if he else inner[-1])
+            elif he:
+                self.exec(inner[-1])
+        elif k in ("WhileStmt", "ForStmt", "DoStmt"):
+            inner = st["inner"]
+            if k == "ForStmt":
+                init, cond, inc, body = inner[0], inner[2], inner[3], inner[4]
+            elif k == "WhileStmt":
+                init, cond, inc, body = None, inner[-2], None, inner[-1]
+            else:
+                init, cond, inc, body = None, inner[1], None, inner[0]
+            if init:
+                self.exec(init)
+            first = k == "DoStmt"
+            while first or not cond or self._cond(cond):
+                first = False
+                try:
+                    self.exec(body)
+                except _Flow as e:
+                    if e.what == "break":
+                        break
+                    if e.what != "continue":
+                        raise
+                if inc:
+                    self.eval(inc)
+        elif k == "ReturnStmt":
+            ks = kids(st)
+            raise _Flow("return", self.eval(ks[0]) if ks else None)
+        elif k == "BreakStmt":
+            raise _Flow("break")
+        elif k == "ContinueStmt":
+            raise _Flow("continue")
+        elif k.endswith("Operator") or k.endswith("Expr"):
+            self.eval(st)
+        else:
+            raise AnalysisError("byte machine: statement %s is outside the vocabulary" % k)
+
+
+_LAYER1_TUS = {}
+
+
+def _layer1_tu(L, name):
+    """the translation unit of one firmware layer1 file, parsed once per run (R8 and R11 read the same files); the stub
+    include path of cfront has no <inttypes.h> (prim_freq.c prints with PRIu32): declarations-only stand-in found behind
+    every other include directory"""
+    cache = _LAYER1_TUS.setdefault(id(L), {})
+    if name not in cache:
+        tmp = tempfile.mkdtemp(prefix="c07l1-", dir=os.environ.get("TMPDIR") or "/var/tmp")
+        try:
+            with open(os.path.join(tmp, "inttypes.h"), "w") as fh:
+                fh.write("#include <stdint.h>\n#define PRIu32 \"u\"\n#define PRId32 \"d\"\n#define PRIx32 \"x\"\n"
+                         "#define PRIu16 \"u\"\n#define PRIu8 \"u\"\n#define PRIu64 \"llu\"\n")
+            try:
+                cache[name] = TU(L.repo, "fw", "layer1/%s" % name, L=L, extra_flags=("-idirafter", tmp))
             except AnalysisError as e:
-                if named:
-                    raise
-                L.extra.setdefault("descriptor_writer_scan_unparsed", []).append("%s: %s" % (name, str(e)[:120]))
+                cache[name] = e
+        finally:
+            shutil.rmtree(tmp, ignore_errors=True)
+    if isinstance(cache[name], AnalysisError):
+        raise cache[name]
+    return cache[name]
+
+
+def _channel_record(tu, bm):
+    """(RecordDecl, flat fields) of the record that holds hopping descriptors (struct l1s_h1 members, directly or through
+    anonymous unions): the channel description `l1s.dedicated`"""
+    found = []
+    for r in walk(tu.ast):
+        if kind(r) != "RecordDecl" or r.get("tagUsed") == "union" or not kids(r):
+            continue
+        flat = bm.flat_fields(r)
+        descs = [n for n, (o, d) in flat.items() if d is not None and d[0] == "rec" and d[1].get("name") == DESC]
+        if len(descs) >= 2:
+            found.append((r, flat, sorted(descs)))
+    if len(found) != 1:
+        raise AnalysisError("%d records hold a live and a pending hopping descriptor (struct %s members); the channel description "
+                            "is unclassifiable" % (len(found), DESC))
+    return found[0]
+
+
+def _channel_ids(bm, rec):
+    """{FieldDecl id: member name} of a record, the members of its anonymous struct / union members included"""
+    out = {}
+    for fid, (o, d, nm) in bm.layout(rec)[2].items():
+        if nm:
+            out[fid] = nm
+        elif d is not None and d[0] == "rec":
+            out.update(_channel_ids(bm, d[1]))
+    return out
+
+
+def _member_access(tu, m):
+    """how the object a member expression names is used: 'read' | 'write' | 'both' | None (unevaluated)"""
+    child, p = m, tu.parent.get(id(m))
+    decayed = False
+    while p is not None:
+        k = kind(p)
+        if k == "ParenExpr" or (k == "MemberExpr" and not p.get("isArrow")) or \
+                (k == "ImplicitCastExpr" and p.get("castKind") in ("NoOp", "BitCast")) or (k == "CStyleCastExpr" and decayed):
+            pass
+        elif k == "ImplicitCastExpr" and p.get("castKind") == "ArrayToPointerDecay":
+            decayed = True
+        elif k == "ArraySubscriptExpr" and kids(p)[0] is child:
+            decayed = False
+        elif k == "UnaryOperator" and p.get("opcode") == "&":
+            decayed = True
+        else:
+            break
+        child, p = p, tu.parent.get(id(p))
+    if p is None:
+        return "both"
+    k = kind(p)
+    if k == "UnaryExprOrTypeTraitExpr":
+        return None
+    if not decayed:
+        if k == "ImplicitCastExpr" and p.get("castKind") == "LValueToRValue":
+            return "read"
+        if k == "BinaryOperator" and p.get("opcode") == "=" and kids(p)[0] is child:
+            return "write"
+        return "both"
+    if k == "CallExpr" and kids(p)[0] is not child:
+        i = [j for j, a in enumerate(kids(p)) if a is child][0] - 1
+        if ctext(kids(p)[0]) in COPY_FUNCS:
+            return "write" if i == 0 else "read"
+    return "both"
+
+
+def _takeover_scenarios(bm, flat, live, pend, flag, pflag, h0, ph0):
+    """(label, {offset: byte}, old hopping?, pending hopping?, pending n) for every mode transition, every pending n of the
+    domain 1..64 and live allocation lengths on both sides of it; every byte of the live description differs from the byte
+    of the pending one at the same position, so that a byte not taken over is seen"""
+    lo, po = flat[live][0], flat[pend][0]
+    d = flat[live][1]
+    sub = bm.flat_fields(d[1])
+    size = bm.sizeof(d)[0]
+    el = bm.sizeof(sub["ma"][1][1])[0]
+    ext = sub["ma"][1][2]
+    h0f = bm.flat_fields(flat[h0][1][1])
+    for old_h in (0, 1):
+        for new_h in (0, 1):
+            for pn in (range(1, ext + 1) if new_h else (0,)):
+                for on in ((0, 1, ext) if old_h or new_h else (0,)):
+                    mem = {}
+                    for name, (o, fd) in flat.items():
+                        if fd is not None and fd[0] == "int":
+                            mem[o] = 1                         # a dedicated channel is established (every other scalar: 1)
+                            for i in range(1, fd[1]):
+                                mem[o + i] = 0
+                    for i in range(size):
+                        mem[po + i] = (0x40 + 5 * i) & 0xFF    # pending union: whatever an earlier description left ...
+                        mem[lo + i] = mem[po + i] ^ 0xA5       # ... and the live one differs in every byte
+                    mem[flat[flag][0]], mem[flat[pflag][0]] = old_h, new_h
+                    if new_h:
+                        mem[po + sub["n"][0]] = pn
+                    if old_h or new_h:
+                        mem[lo + sub["n"][0]] = on if on != pn else (pn % ext) + 1
+                    yield ("%shopping -> %shopping%s" % ("" if old_h else "non-", "" if new_h else "non-",
+                                                        ", pending n = %d, previous n = %d" % (pn, mem[lo + sub["n"][0]]) if new_h else ""),
+                           mem, old_h, new_h, pn)
+
+
+def r11_takeover(L, tier):
+    """C07.R11 decides a necessary condition of the firmware clause "the selected channel is MA[MAI] for the configured
+    HSN, MAIO, mobile allocation" across a starting time: rfch_get_params() reads the hopping flag, and either
+    h1.hsn / maio / n / ma[0..n-1] or h0.arfcn, from the live channel description; the pending description (the `st_`
+    members L1CTL_DM_FREQ_REQ fills) is the configured one from the starting time on.  So every function that takes the
+    pending description over -- it reads a pending member and writes a live one; found by who-reads / who-writes over the
+    member declarations, not by name -- must leave, for each of the four mode transitions (previous channel hopping or
+    not x pending channel hopping or not), every pending allocation length 1..64 and previous lengths on both sides of it:
+    the live flag equal (as a truth value) to the pending flag and, pending hopping, hsn, maio, n and ma[0..n-1] equal to
+    the pending descriptor's, pending non-hopping, every member of h0 equal to the pending h0's.  Decided by constant
+    folding: the function is evaluated on a byte memory (_ByteMachine: h0 / h1 share the bytes of their union, memcpy and
+    struct assignment move bytes, sizes are sizeof of the natural-alignment layout) for each scenario, every live byte
+    differing from the pending byte at its position; a scenario of the domain that leaves a parameter rfch_get_params()
+    reads different from the pending one is the violation, reported with the transition and the member.  A function the
+    machine cannot evaluate is ANALYSIS-ERROR."""
+    head = _layer1_tu(L, "rfch.c")
+    L.unit(F_SYNC_H)
+    hb = _ByteMachine(head)
+    rec, flat, descs = _channel_record(head, hb)
+    fids = _channel_ids(hb, rec)
+    # what the observation point reads: members of the channel description named in rfch.c (the file of rfch_get_params())
+    reads, conds = set(), set()
+    for f in head.functions.values():
+        if not any(kind(c) == "CompoundStmt" for c in kids(f)):
+            continue
+        for n in walk(head.body(f)):
+            if kind(n) == "MemberExpr" and n.get("referencedMemberDecl") in fids:
+                reads.add(fids[n["referencedMemberDecl"]])
+                c, p = n, head.parent.get(id(n))
+                while p is not None and kind(p) in SKIP:
+                    c, p = p, head.parent.get(id(p))
+                # the member's truth value decides a branch: `if (m)`, `m ? :`, `!m`, `m && ..`, `m != 0`
+                if p is not None and ((kind(p) in ("IfStmt", "ConditionalOperator") and kids(p)[0] is c) or
+                                      (kind(p) == "UnaryOperator" and p.get("opcode") == "!") or
+                                      (kind(p) == "BinaryOperator" and p.get("opcode") in ("&&", "||", "==", "!="))):
+                    conds.add(fids[n["referencedMemberDecl"]])
+    live = [d for d in descs if d in reads]
+    pend = [d for d in descs if d not in reads]
+    if len(live) != 1 or len(pend) != 1 or not pend[0].endswith(live[0]):
+        raise AnalysisError("channel description: live hopping descriptor %s / pending %s; unclassifiable" % (live, pend))
+    live, pend = live[0], pend[0]
+    prefix = pend[:len(pend) - len(live)]
+    flags = sorted(c for c in conds if prefix + c in flat and flat[c][1] is not None and flat[c][1][0] == "int" and c in reads)
+    if len(flags) != 1:
+        raise AnalysisError("channel description: the hopping flag tested in rfch.c is one of %s; unclassifiable" % flags)
+    flag, pflag = flags[0], prefix + flags[0]
+    h0 = sorted(n for n, (o, d) in flat.items() if o == flat[live][0] and n != live and d is not None and d[0] == "rec")
+    if len(h0) != 1 or prefix + h0[0] not in flat or flat[prefix + h0[0]][0] != flat[pend][0]:
+        raise AnalysisError("channel description: the non-hopping alternative of `%s` is one of %s; unclassifiable" % (live, h0))
+    h0, ph0 = h0[0], prefix + h0[0]
+    pending_names = {n for n in flat if n.startswith(prefix) and n[len(prefix):] in flat}
+    live_names = {flag, live, h0}
+    d = os.path.join(L.repo, FW_LAYER1)
+    try:
+        names = sorted(x for x in os.listdir(d) if x.endswith(".c"))
+    except OSError as e:
+        raise AnalysisError("firmware layer1 directory unreadable: %s" % e)
+    pat = re.compile(r"\b(%s)\b" % "|".join(re.escape(m) for m in sorted(pending_names & {pend, ph0, pflag})))
+    nfun, seen = 0, set()
+    for name in names:
+        try:
+            with open(os.path.join(d, name), errors="replace") as fh:
+                src = fh.read()
+        except OSError as e:
+            raise AnalysisError("%s unreadable: %s" % (name, e))
+        if not pat.search(strip_comments(src)):
+            continue                                # a pending member can only be read where it is named
+        tu = _layer1_tu(L, name)
+        file = "%s/%s" % (FW_LAYER1, name)
+        bm0 = _ByteMachine(tu)
+        rec, flat, _ = _channel_record(tu, bm0)
+        fids = _channel_ids(bm0, rec)
+        for fn, fd in sorted(tu.functions.items()):
+            if not any(kind(c) == "CompoundStmt" for c in kids(fd)) or ((fd.get("_file") or "", fn) in seen):
                 continue
-            if DESC not in tu.records:
-                if named:
-                    raise AnalysisError("%s names a hopping descriptor but struct %s is not declared there" % (name, DESC))
-                continue                                # the type is not visible: no object of it can be touched
-            nfiles += 1
-            file = "%s/%s" % (FW_LAYER1, name)
-            scans = {}
-            for fn, fd in sorted(tu.functions.items()):
-                if not any(kind(c) == "CompoundStmt" for c in kids(fd)):
-                    continue
-                where = (fd.get("_file") or "", fn)
-                sc = _DescScan(tu, fd)
-                if sc.sites or sc.escapes:
-                    scans[fn] = (fd, sc, where)
-            writers = {fn for fn, (fd, sc, _) in scans.items() if any(s.writes() for s in sc.sites.values())}
-            for fn, (fd, sc, where) in sorted(scans.items()):
-                if where in seen:
-                    continue                            # an inline function of a header, met in an earlier file
-                seen.add(where)
-                if sc.escapes:
-                    raise AnalysisError("%s(): hopping descriptor: %s; unclassifiable" % (fn, "; ".join(sc.escapes[:2])))
-                if not any(s.writes() or s.delegated for s in sc.sites.values()):
-                    continue
-                L.fn(file, fn)
-                g = CCFG(tu, fd)
-                for obj in sorted(sc.sites):
-                    nsites += _desc_site(L, tu, file, fd, g, sc.sites[obj], sc, writers)
-        L.extra["descriptor_writer_scan"] = {"translation_units": nfiles, "sites": nsites, "members": sorted(members)}
-        L.floor("C07.R8", "sites that write a hopping descriptor (struct l1s_h1) in firmware layer1", nsites, 2)
-    finally:
-        shutil.rmtree(tmp, ignore_errors=True)
+            rd, wr = set(), set()
+            for n in walk(tu.body(fd)):
+                if kind(n) == "MemberExpr" and n.get("referencedMemberDecl") in fids:
+                    nm = fids[n["referencedMemberDecl"]]
+                    acc = _member_access(tu, n)
+                    if acc in ("read", "both") and nm in (pend, ph0, pflag):
+                        rd.add(nm)
+                    if acc in ("write", "both") and nm in live_names:
+                        wr.add(nm)
+            if not (rd and wr):
+                continue
+            seen.add((fd.get("_file") or "", fn))
+            L.fn(file, fn)
+            nfun += 1
+            _takeover_function(L, tu, file, fd, rec, flat, live, pend, flag, pflag, h0, ph0)
+    L.floor("C07.R11", "functions that take the pending channel description over (read st_ members, write live ones)", nfun, 1)
+
+
+def _takeover_function(L, tu, file, fd, rec, flat, live, pend, flag, pflag, h0, ph0):
+    fname = fd.get("name")
+    line = tu.line(fd)
+    probe = _ByteMachine(tu)
+    sub = probe.flat_fields(flat[live][1][1])
+    if not {"hsn", "maio", "n", "ma"} <= set(sub) or sub["ma"][1][0] != "arr":
+        raise AnalysisError("struct %s lost one of hsn / maio / n / ma[]; unclassifiable" % DESC)
+    h0f = probe.flat_fields(flat[h0][1][1])
+    el = probe.sizeof(sub["ma"][1][1])[0]
+    if fd.get("variadic") or any("*" in (p.get("type", {}).get("qualType") or "") for p in tu.fparams(fd)):
+        raise AnalysisError("%s() takes the pending channel description over and has pointer parameters; unclassifiable" % fname)
+    key = "%s() takes the pending channel description over (`%s`, `%s` / `%s` -> `%s`, `%s` / `%s`): afterwards the hopping flag and " \
+          "the parameters rfch_get_params() reads are the pending ones, for every mode transition and allocation length" % (
+              fname, pflag, pend, ph0, flag, live, h0)
+    want = "flag == pending flag; hopping: hsn, maio, n, ma[0..n-1] == pending; non-hopping: %s == pending" % "/".join(
+        "%s.%s" % (h0, k) for k in sorted(h0f))
+    total, bad = 0, None
+    for label, mem, old_h, new_h, pn in _takeover_scenarios(probe, flat, live, pend, flag, pflag, h0, ph0):
+        bm = _ByteMachine(tu)
+        bm.layouts = probe.layouts
+
+        def background(region, off, bm=bm, mem=mem):
+            bases = bm.member_bases.get(id(rec), set())
+            if len(bases) != 1:
+                return None
+            (breg, boff), = bases
+            return mem.get(off - boff) if region == breg else None
+        bm.background = background
+        bm.run(fd, [1] * len(tu.fparams(fd)))
+        bases = bm.member_bases.get(id(rec), set())
+        if len(bases) != 1:
+            raise AnalysisError("%s(): %d objects of the channel description's type are accessed; unclassifiable" % (fname, len(bases)))
+        (breg, boff), = bases
+        rd = lambda o, n=1: sum(bm._byte(breg, boff + o + i) << (8 * i) for i in range(n))
+        before = lambda o, n=1: sum(mem[o + i] << (8 * i) for i in range(n))
+        total += 1
+        lo, po = flat[live][0], flat[pend][0]
+        diffs = []
+        if bool(rd(flat[flag][0], flat[flag][1][1])) != bool(new_h):
+            diffs.append("`%s` is %d, the pending `%s` is %d" % (flag, rd(flat[flag][0], flat[flag][1][1]), pflag, new_h))
+        elif new_h:
+            for k in ("hsn", "maio", "n"):
+                o, dd = sub[k]
+                if rd(lo + o, dd[1]) != before(po + o, dd[1]):
+                    diffs.append("`%s.%s` is %s (%d), the pending `%s.%s` is %d" % (
+                        live, k, "still the previous value" if rd(lo + o, dd[1]) == before(lo + o, dd[1]) else "now", rd(lo + o, dd[1]),
+                        pend, k, before(po + o, dd[1])))
+            stale = [i for i in range(pn) if rd(lo + sub["ma"][0] + i * el, el) != before(po + sub["ma"][0] + i * el, el)]
+            if stale:
+                diffs.append("`%s.ma[%d%s]` %s not the pending allocation's" % (
+                    live, stale[0], "..%d" % stale[-1] if len(stale) > 1 else "", "are" if len(stale) > 1 else "is"))
+        else:
+            for k, (o, dd) in sorted(h0f.items()):
+                if dd is not None and dd[0] == "int" and rd(lo + o, dd[1]) != before(po + o, dd[1]):
+                    diffs.append("`%s.%s` is %d, the pending `%s.%s` is %d" % (h0, k, rd(lo + o, dd[1]), ph0, k, before(po + o, dd[1])))
+        if diffs and bad is None:
+            bad = "%s: after %s() %s" % (label, fname, "; ".join(diffs[:3]))
+    L.ob("C07.R11", file, fname, key, want,
+         "folded for %d scenarios (4 mode transitions x pending n 1..64 x previous n): all as required" % total if bad is None
+         else bad + " -- rfch_get_params() selects the channel from a description that was never configured", bad is None, line)
 
 
 # ------------------------------------------------------------------------------
@@ -4153,3 +4972,5 @@ def run(L, tier):
     L.stage(r10_c_sequences, L, gen, spec)
     L.stage(r10_c_getter_state, L, gen, spec)
     L.stage(r8_descriptor_writers, L, tier)
+    L.stage(r11_takeover, L, tier)
+    _LAYER1_TUS.pop(id(L), None)
